@@ -78,6 +78,13 @@ def build(tier, work, builder):
     s, e = lx.find_unique(r"^\{num\}\s*\{", what="lexer.l: {num} rule")
     be = lx.match_brace(e - 1)
     act = X.Slice("lexer.l: {num} rule action", lx, e - 1, be)
+    # the action is compiled as C: C++ spellings of the same libc calls are lowered (rule L28)
+    act.sub("L28:std::f -> f (C extraction)", r"\bstd::(?=\w)", "")
+    act.sub("L28:static_cast<T>(e) -> ((T)(e))", r"\bstatic_cast<([\w\s]+)>\(", r"(\1)(")
+    act.sub("L28:auto x = strtol(...) -> long x", r"\b(const\s+)?auto\s+(\w+)\s*=\s*(strtol|strtoll|atol)\b", r"\1long \2 = \3")
+    act.sub("L28:auto x = atoi(...) -> int x", r"\b(const\s+)?auto\s+(\w+)\s*=\s*atoi\b", r"\1int \2 = atoi")
+    if re.search(r"\bauto\b", act.text):
+        raise X.ExtractionBroken("lexer.l {num} action: an `auto` declaration rule L28 cannot type")
     write(work, "lex_num_action.inc", act.text + "\n")
     slices.append(act)
     lobj = builder.cc(os.path.join(CDIR, "lex02.c"), includes=[work])
